@@ -24,6 +24,7 @@ type onceState struct {
 	cl                *plugin.Client
 	rfCalls           int
 	addrs             []net.Addr
+	addrStrs          []string
 	clients           []plugin.ClientProtocol
 	killed            bool
 	killedAfterLaunch bool
@@ -74,6 +75,11 @@ func newOnce(x *vs.Exec, behaviour string) *onceState {
 	} else if b, ok := strings.CutPrefix(behaviour, "wild6-"); ok {
 		behaviour, tcp = b, "[::]:4568"
 	}
+	// "rel-<proto>": the plugin announces a unix socket with a relative path
+	relSock := false
+	if b, ok := strings.CutPrefix(behaviour, "rel-"); ok {
+		behaviour, relSock = b, true
+	}
 	// "slow-<proto>": the runner's Start succeeds, but only after more time than StartTimeout
 	slowLaunch := false
 	if b, ok := strings.CutPrefix(behaviour, "slow-"); ok {
@@ -81,9 +87,9 @@ func newOnce(x *vs.Exec, behaviour string) *onceState {
 	}
 	switch behaviour {
 	case "netrpc":
-		script = servePlugin(serveOpts{proto: "netrpc", plugins: ps, tcpAddr: tcp})
+		script = servePlugin(serveOpts{proto: "netrpc", plugins: ps, tcpAddr: tcp, relSock: relSock})
 	case "grpc":
-		script = servePlugin(serveOpts{proto: "grpc", plugins: plugin.PluginSet{"p": &tagGRPCPlugin{tag: "t"}}, tcpAddr: tcp})
+		script = servePlugin(serveOpts{proto: "grpc", plugins: plugin.PluginSet{"p": &tagGRPCPlugin{tag: "t"}}, tcpAddr: tcp, relSock: relSock})
 	case "badline":
 		script = func(r *scriptRunner) { fmt.Fprintf(r.stdout, "1|99|tcp|127.0.0.1:1\n"); r.waitKilled() }
 	case "badproto": // fails late: the line is well-formed but names a protocol the client does not allow
@@ -172,6 +178,7 @@ func (st *onceState) op(name string) {
 		x.Obs("Start err=%v", err != nil)
 		if err == nil {
 			st.addrs = append(st.addrs, a)
+			st.addrStrs = append(st.addrStrs, a.Network()+"|"+a.String()) // the value at the time of the call
 		} else if st.r.startCount() > 0 {
 			st.failedAfterLaunch = true
 		}
@@ -238,6 +245,17 @@ func (st *onceState) check(desc string) {
 	for _, a := range st.addrs[min(1, len(st.addrs)):] {
 		if a != st.addrs[0] {
 			x.Fail("S", "successful Start calls returned different addresses [%s]", desc)
+		}
+	}
+	for i, a := range st.addrStrs {
+		// ... also by value: what an earlier call returned must not change under the caller's feet
+		if a != st.addrStrs[0] {
+			x.Fail("S", "successful Start calls returned different addresses: %s, then %s [%s]", st.addrStrs[0], a, desc)
+			break
+		}
+		if now := st.addrs[i].Network() + "|" + st.addrs[i].String(); now != a {
+			x.Fail("S", "the address returned by Start (%s) was changed afterwards to %s [%s]", a, now, desc)
+			break
 		}
 	}
 	// accessors are idempotent: the answer to Protocol() never changes once given, except from "not started
@@ -312,14 +330,14 @@ func init() {
 			}
 			var out []explore.Params
 			var rec func(prefix []string)
-			behs := []string{"netrpc", "grpc", "badline", "badproto", "silent", "rferr", "re-netrpc", "re-grpc", "tre-netrpc", "tre-grpc", "wild4-netrpc", "wild6-grpc", "slow-netrpc", "slow-grpc"}
+			behs := []string{"netrpc", "grpc", "badline", "badproto", "silent", "rferr", "re-netrpc", "re-grpc", "tre-netrpc", "tre-grpc", "wild4-netrpc", "wild6-grpc", "slow-netrpc", "slow-grpc", "rel-netrpc", "rel-grpc"}
 			rec = func(prefix []string) {
 				if len(prefix) > 0 {
 					for _, b := range behs {
 						if b == "silent" && len(prefix) > 3 {
 							continue // each failing Start costs the full timeout; keep the silent plugin to short histories
 						}
-						if (strings.Contains(b, "re-") || strings.HasPrefix(b, "wild") || strings.HasPrefix(b, "slow-")) && len(prefix) > 4 {
+						if (strings.Contains(b, "re-") || strings.HasPrefix(b, "wild") || strings.HasPrefix(b, "slow-") || strings.HasPrefix(b, "rel-")) && len(prefix) > 4 {
 							continue
 						}
 						out = append(out, explore.Params{"beh": b, "seq": strings.Join(prefix, ",")})
